@@ -65,6 +65,15 @@ int compint_to_size(zckCtx *zck, size_t *val, const char *compint,
             c -= 128;
             done = true;
         }
+        /* Fail if this digit doesn't fit in a size_t; otherwise the value
+         * would silently wrap around */
+        if(count >= MAX_COMP_SIZE ||
+           c > (SIZE_MAX >> (7 * count))) {
+            set_fatal_error(zck, "Number too large");
+            *length -= count;
+            *val = 0;
+            return false;
+        }
         /* There *must* be a more elegant way of doing c * 128**count */
         for(int f=0; f<count; f++)
             c *= 128;
